@@ -196,10 +196,16 @@ fn oracle(c: &Case, acc: &mut Acc) -> CaseResult {
     // deliver
     // the receiver's payload buffer: ample, or exactly the honest payload length (empty for an
     // empty payload) - implementations choose decrypt paths by the room they are given
+    // ... or exactly the HONEST payload length even when the altered message is longer (a
+    // receiver that knows what it expects): the message must still be judged as a whole
     let tight = spec.key_seed % 3 == 0;
-    let mut buf = vec![0u8; if tight { (altered.len().max(genuine.len())).saturating_sub(l.overhead).max(c.plen) } else { 65535 + 64 }];
+    let honest_size = spec.key_seed % 3 == 1 && (c.plen + l.overhead == genuine.len());
+    let mut buf = vec![0u8; if tight { (altered.len().max(genuine.len())).saturating_sub(l.overhead).max(c.plen) } else if honest_size { c.plen } else { 65535 + 64 }];
     if tight {
         acc.label("read_buffer:tight");
+    }
+    if honest_size {
+        acc.label("read_buffer:honest_payload_size");
     }
     let res = {
         let r = if i_sends { &mut pair.r } else { &mut pair.i };
